@@ -31,10 +31,11 @@ def menu(ds, sizes):
     e = extra[0] if extra else "fcst"
     m = [(["obs", "fcst"], 0, ALL, 0), (["obs"], 0, 3, 0), (["fcst"], 0, 3, 0), (["obs", "fcst"], 0, 3, 0),
          (["obs"], 0, ALL, 0), (["obs", "fcst"], k1, ALL, 0), (["obs", "fcst"], 0, 1, 0), (["obs"], k1, 2, 0),
-         (["fcst", e], 0, ALL, 0), (["fcst"], k1, ALL, 0), (["obs", e], k1, 3, 0), (["fcst"], 0, 0, 0)]
+         (["fcst", e], 0, ALL, 0), (["fcst"], k1, ALL, 0), (["obs", e], k1, 3, 0), (["fcst"], 0, 0, 0),
+         (["obs"], k1, 3, 0), (["obs"], k1, ALL, 0)]       # observation-only requests for two inputs with the same slice
     if all("ens0" in i["fields"] and "ens1" in i["fields"] for i in ds["inputs"] + ([ds["cfg"]["clim"]] if "clim" in ds["cfg"] else [])):
         # ensemble members are fields of their own: two different members must never share a cache entry
-        m = m[:8] + [(["ens0"], 0, 3, 0), (["ens1"], 0, 3, 0), (["ens1"], k1, ALL, 0), (["obs", "ens0"], 0, ALL, 0)]
+        m = m[:8] + m[12:] + [(["ens0"], 0, 3, 0), (["ens1"], 0, 3, 0), (["ens1"], k1, ALL, 0), (["obs", "ens0"], 0, ALL, 0)]
     return [r for r in m if r[2] == ALL or int(sizes[r[2]]) > 0]
 
 
@@ -138,6 +139,23 @@ def _explore(out, tier, seed, facts, replay):
         for _ in range(nrand):
             L = rng.randint(exh + 1, 10)
             cases.append((ds, [rng.choice(m) for _ in range(L)]))
+    # inputs whose dimensions are already the dataset's, in ascending order (the usual case for real files): every cut to the
+    # common times / lead times / locations is then the identity, so nothing may alias the input's own arrays
+    sorted_sets = []
+    for _ in range(6 if tier == "quick" else 30):
+        nt_, nl_, ns_ = rng.randint(1, 3), rng.randint(1, 3), rng.randint(1, 3)
+        base_ = {"times": [86400 * k for k in range(nt_)], "leads": [6.0 * k for k in range(nl_)], "locs": [[k + 1, 60.0 + k, 10.0 + k, 100.0 * k] for k in range(ns_)]}
+        ins_ = []
+        for _k in range(rng.randint(2, 3)):
+            sp_ = dict(base_, fields={f_: datagen.gen_cube(rng, nt_, nl_, ns_, rng.choice([0.1, 0.3])) for f_ in ("obs", "fcst", "pit", "ens0", "ens1")})
+            ins_.append(sp_)
+        dss = {"inputs": ins_, "cfg": {}}
+        dd = datagen.impl_data(dss)
+        if isinstance(dd, tuple) or len(dd.times) == 0:
+            continue
+        sorted_sets.append((dss, menu(dss, datatie.sizes_of(dd))))
+        for h_ in itertools.product(sorted_sets[-1][1][:6], repeat=2):
+            cases.append((dss, list(h_)))
     # ---- falsifier on the implementation: the property itself ---------------------------------------
     nf = 0
     fresh_cache = {}
@@ -198,7 +216,7 @@ def _explore(out, tier, seed, facts, replay):
                                   % (i, h[i], h[i + 1:]), {"dataset": ds, "history": h, "index": i})
                     break
     # inputs unmodified + two runs identical, on a sample
-    for ds, m in dsets:
+    for ds, m in dsets + sorted_sets:
         inputs = [datagen.mem_input(s, "in%d" % i) for i, s in enumerate(ds["inputs"])]
         before = fingerprint(inputs)
         kw = {}
